@@ -144,7 +144,7 @@ def chunk_case(col, case):
 # ---------------------------------------------------------------------------------- (b) end to end
 def e2e_sig(case, clause, **more):
     a = case.get("alpha", "default")
-    s = dict(part=case["style"], clause=clause, method=case.get("method") or "default",
+    s = dict(part=case["style"], clause=clause, method=(case.get("method") or "default").lower(),
              alpha=("none" if a is None else "threshold" if isinstance(a, float) or a == "default" else "colour"),
              source=case.get("kind", "pil"))
     s.update(more)
@@ -308,7 +308,8 @@ def judge_iterm2(col, case, t, ref, alpha, termbg, w, h, cell, render_px, method
     srcmode = ref.mode
     no_manipulation = srcmode in cc.OPAQUE_MODES or isinstance(alpha, float)
     may_read = rff and (whole or method == "anim") and not animated and path is not None and no_manipulation
-    must_read = (may_read and whole and srcmode not in ("P", "PA")
+    # ANIM on a still image "is rendered as WHOLE" (documentation), so the gate applies to it as well
+    must_read = (may_read and (whole or method == "anim") and srcmode not in ("P", "PA")
                  and ref.size[0] * ref.size[1] <= render_px[0] * render_px[1])
     is_file = path is not None and raw0 == filebytes
     if is_file and not may_read:
@@ -444,6 +445,24 @@ def build_cases(tier):
         add(_prod(style=["iterm2"], identity=["wezterm"], set_method=setm + [["instance", "anim"], ["class", "anim"]],
                   method=[None, "lines", "whole", "anim"], src=msrc, cell=[[9, 18], [2, 3]],
                   size=[[4, 3], [2, 3], [3, 2]], compress=[4], alpha=["default", None], via=[via]))
+    # per-call method override spelled in upper / mixed case (the parameter is documented case-insensitive)
+    add(_prod(style=["kitty"], identity=["kitty"], set_method=[None, ["instance", "whole"], ["instance", "lines"]],
+              method=["LINES", "Lines", "WHOLE", "Whole"], src=msrc[:2], cell=[[9, 18]], size=[[4, 3], [2, 3]],
+              compress=[0, 4], alpha=["default", None]))
+    add(_prod(style=["iterm2"], identity=["wezterm"], set_method=[None, ["instance", "whole"], ["instance", "lines"]],
+              method=["LINES", "Lines", "WHOLE", "Whole", "ANIM", "Anim"], src=msrc[:2] + [GIFS[1]], cell=[[9, 18]],
+              size=[[4, 3], [2, 3]], compress=[4], alpha=["default", None]))
+    # ANIM as the effective method on STILL file sources (override, format "+A", set on instance / class):
+    # rendered as WHOLE, so an eligible file is transmitted untouched
+    still_files = [dict(src=["pat", 2, 3, "RGB"], kind="file", fmt="png"), dict(src=["pat", 5, 4, "RGBA"], kind="file", fmt="png"),
+                   dict(src=["pat", 2, 3, "RGB"], kind="pilfile", fmt="png"), dict(src=["pat", 5, 4, "RGB"], kind="file", fmt="jpeg")]
+    for g in still_files:
+        for sm, m, via in ((None, "anim", "renderer"), (None, "anim", "format"), (["instance", "anim"], None, "renderer"),
+                           (["class", "anim"], None, "renderer"), (["instance", "anim"], None, "format"),
+                           (["class", "anim"], "whole", "renderer"), (["instance", "lines"], "anim", "format")):
+            add(dict(c, **g) for c in _prod(style=["iterm2"], identity=iid, set_method=[sm], method=[m], via=[via],
+                                            cell=[[2, 3], [8, 16]], size=few[:3], rff=[None, False], compress=[4],
+                                            alpha=[a for a in ALPHAS if not (via == "format" and a == "#")]))
     # jpeg_quality configured on ITerm2Image / a subclass / the instance, every combination incl. "disabled under
     # an enabled parent": the payload format must follow instance -> nearest class -> default (disabled)
     for jc in (None, 50, -1):
